@@ -149,6 +149,8 @@ func (c *Ctx) numeralTheory() {
 		// general numeral: an optional sign character g (0: none), z zeros, the decimal text of n
 		"(forall ((bv!s Int) (bv!g Int) (bv!z Int) (bv!n Int)) (! (=> (and (>= bv!n 0) (>= bv!z 0) (or (= bv!g 0) (= bv!g 43) (= bv!g 45)) (= (strlen bv!s) (+ (ite (= bv!g 0) 0 1) bv!z (nd10 bv!n))) (=> (not (= bv!g 0)) (= (strbyte bv!s 0) bv!g)) (forall ((bv!t Int)) (=> (and (<= 0 bv!t) (< bv!t bv!z)) (= (strbyte bv!s (+ (ite (= bv!g 0) 0 1) bv!t)) 48))) (forall ((bv!t Int)) (=> (and (<= 0 bv!t) (< bv!t (nd10 bv!n))) (= (strbyte bv!s (+ (ite (= bv!g 0) 0 1) bv!z bv!t)) (uf_dchar_2 bv!n bv!t))))) (= (uf_ntext_4 bv!s bv!g bv!z bv!n) 1)) :pattern ((uf_ntext_4 bv!s bv!g bv!z bv!n))))",
 		"(forall ((bv!s Int) (bv!g Int) (bv!z Int) (bv!n Int)) (! (=> (= (uf_ntext_4 bv!s bv!g bv!z bv!n) 1) (and (= (uf_isnum_1 bv!s) 1) (= (uf_numval_1 bv!s) (ite (= bv!g 45) (- bv!n) bv!n)))) :pattern ((uf_ntext_4 bv!s bv!g bv!z bv!n))))",
+		// a numeral is nothing else: it is not empty, and each of its characters is a digit except a sign in front
+		"(forall ((bv!s Int)) (! (=> (= (uf_isnum_1 bv!s) 1) (and (>= (strlen bv!s) 1) (forall ((bv!t Int)) (! (=> (and (<= 0 bv!t) (< bv!t (strlen bv!s))) (or (and (<= 48 (strbyte bv!s bv!t)) (<= (strbyte bv!s bv!t) 57)) (and (= bv!t 0) (or (= (strbyte bv!s 0) 43) (= (strbyte bv!s 0) 45))))) :pattern ((strbyte bv!s bv!t)))))) :pattern ((uf_isnum_1 bv!s))))",
 		// elimination
 		"(forall ((bv!s Int) (bv!z Int) (bv!n Int)) (! (=> (= (uf_utext_3 bv!s bv!z bv!n) 1) (and (= (uf_isnum_1 bv!s) 1) (= (uf_numval_1 bv!s) bv!n))) :pattern ((uf_utext_3 bv!s bv!z bv!n))))",
 		"(forall ((bv!s Int) (bv!g Int) (bv!n Int)) (! (=> (= (uf_stext_3 bv!s bv!g bv!n) 1) (and (= (uf_isnum_1 bv!s) 1) (= (uf_numval_1 bv!s) (ite (= bv!g 45) (- bv!n) bv!n)))) :pattern ((uf_stext_3 bv!s bv!g bv!n))))",
